@@ -85,6 +85,10 @@ func solvePortfolio(script string, secs, seed int) SolveResult {
 		res.Verdict, res.Solver, res.Output, res.Secs = v, solverTable[order[0]].name, out, time.Since(t0).Seconds()
 		return res
 	}
+	// the race runs four solver processes: at most raceSlots races at a time, so that the time limits mean CPU time
+	// and not time spent waiting for a core
+	raceSem <- struct{}{}
+	defer func() { <-raceSem }()
 	ctx, cancel := context.WithCancel(context.Background())
 	defer cancel()
 	type r struct {
@@ -109,6 +113,8 @@ func solvePortfolio(script string, secs, seed int) SolveResult {
 	res.Secs = time.Since(t0).Seconds()
 	return res
 }
+
+var raceSem = make(chan struct{}, 4)
 
 var solverErrors sync.Map // malformed scripts are machinery errors, never violations
 
